@@ -73,7 +73,12 @@ impl<'a> Visitor<Diagnostic> for FindGlobalConstVars<'a> {
                 VariableIdentifier::Symbol(name) => {
                     self.global_consts.insert(name.clone());
                 }
-                VariableIdentifier::Direct(_) => return Err(Diagnostic::todo(file!(), line!())),
+                VariableIdentifier::Direct(direct) => {
+                    // A located variable can only be referred to by its symbolic name
+                    if let Some(name) = &direct.name {
+                        self.global_consts.insert(name.clone());
+                    }
+                }
             }
         }
         Ok(())
